@@ -99,6 +99,45 @@ def run(m, rep, tier):
     _ae = rep.rule('P7', 'every store / effectful call made with assertions enabled is also made by the NDEBUG build (no work inside assert())', floor=1)
     check_assert_effects(m, _ae, ('map.c', 'map.h'))
 
+    # ---- P8: const parameters stay untouched; no state outside the frame -----------------------------------
+    from .util import check_no_mutable_globals, check_const_params
+    p8 = rep.rule('P8', 'map.c defines no writable static object; a pointer-to-const parameter (the key) is never written through', floor=2)
+    check_no_mutable_globals(m, p8, ('map',))
+    check_const_params(m, p8, ('map.h',))
+
+    # ---- P9: find fills in the whole iterator ---------------------------------------------------------------
+    p9 = rep.rule('P9', 'cstl_map_find writes every member of the iterator it is given on every path (stored pointers, or the end iterator)', floor=1)
+    f9 = m.ifn('cstl_map_find')
+    if f9 is None:
+        p9.undecided('cstl_map_find', 'not in the inlined model')
+    else:
+        members = ('key', 'val', '_')
+
+        def transfer9(ins, st, ps):
+            if ins.op == 'call':
+                if ins.x.get('noreturn'):
+                    return None
+                if (ins.callee or '').startswith('llvm.memcpy') and resolve_addr(f9, ins.o[0]).root == '$2' and not resolve_addr(f9, ins.o[0]).steps:
+                    return frozenset(members)
+            if ins.op == 'store':
+                a = resolve_addr(f9, ins.o[1])
+                if a.root == '$2' and a.steps and a.steps[0] in members:
+                    return st | {a.steps[0]}
+            return st
+        try:
+            res9 = typestate.run(f9, frozenset(), transfer9, limit=60000)
+            short = [(r, ps.auto) for r, ps in res9.exits if set(ps.auto) != set(members)]
+            if not res9.exits:
+                p9.undecided('cstl_map_find', 'no return reached', floc(m, f9))
+            elif short:
+                r, got = short[0]
+                p9.violation('cstl_map_find', 'a path to the return at %s leaves the iterator member(s) %s as they were (e.g. the shortcut for an empty map): '
+                             'the caller reads pointers from an earlier lookup, or uninitialised memory' % (r.loc(), ', '.join(sorted(set(members) - set(got)))), floc(m, f9), {})
+            else:
+                p9.ok('cstl_map_find', 'key, val and the node handle are written on all %d exit state(s)' % len(res9.exits), floc(m, f9))
+        except typestate.Limit as e:
+            p9.undecided('cstl_map_find', str(e), floc(m, f9))
+
 
 def _callee_allocates(m, name):
     g = m.pfn(name)
